@@ -31,8 +31,8 @@ func watchdog(d time.Duration, f func() string) (msg string) {
 	select {
 	case m := <-ch:
 		return m
-	case <-time.After(d):
-		return fmt.Sprintf("the call did not return within %s (hang)", d)
+	case <-time.After(5 * d): // five times the budget: a loaded machine is slow, a hang is for ever
+		return fmt.Sprintf("the call did not return within %s (hang)", 5*d)
 	}
 }
 
